@@ -30,6 +30,7 @@ import collections
 import math
 
 import numpy as np
+from ..common import quiet as _quiet
 
 from ..common import fbits, unfbits, v3, vlist, close
 
@@ -691,7 +692,7 @@ def _call_move(P, bonds, n, record_draws=False, **kw):
     out = err = None
     with _Patched(n, record_draws) as pt:
         try:
-            with np.errstate(all="ignore"):
+            with _quiet():
                 out = move_mol_atom(Pin, bonds, **kw)
         except Runaway as e:
             err = e
@@ -727,7 +728,7 @@ def _eval_move(ctx, case):
         if isinstance(err, ValueError):
             P2 = P.copy()
             try:
-                with _Patched(n), np.errstate(all="ignore"):
+                with _Patched(n), _quiet():
                     from gaddlemaps._transform_molecule import move_mol_atom
                     move_mol_atom(P2, _to_dict(table), atom_index=a, displ=displ)
                 if P2.tobytes() != P.tobytes():
@@ -832,7 +833,7 @@ def _eval_displ(ctx, case):
     np.random.seed(int(case["npseed"]))
     with _Patched(n, record_draws=True) as pt:
         try:
-            with np.errstate(all="ignore"):
+            with _quiet():
                 d = find_atom_random_displ(Pin, _to_dict(table), a, sigma_scale=ss)
         except Exception as e:
             err = e
